@@ -1624,6 +1624,28 @@ def run_serialize(case):
     k = BinaryCIFFile.read(io.BytesIO(buf3.getvalue()))
     if not has_nan:
         o.check(k == f, "file_roundtrip_equal", "lazy rewrite differs")
+    # as_array() of a masked column with a replacement value: masked rows carry it, the others the data,
+    # and the column itself is left as it was (checked through a second write/read of the same object)
+    probed = 0
+    for b in case["blocks"]:
+        for c in b["categories"]:
+            for col in c["columns"]:
+                a, m, kind = truth[(b["name"], c["name"], col["name"])]
+                if m is None or kind == "str" or len(a) == 0:
+                    continue
+                fcol = f[b["name"]][c["name"]][col["name"]]
+                fill = 77 if kind == "int" and np.can_cast(np.min_scalar_type(77), a.dtype) else (0.5 if kind == "float" else 1)
+                for dt in (None, a.dtype):
+                    got = fcol.as_array(masked_value=fill) if dt is None else fcol.as_array(dt, masked_value=fill)
+                    want = np.where(np.asarray(m) != 0, np.array(fill, dtype=a.dtype), a)
+                    okv = _same_float_bits(want, np.asarray(got).astype(a.dtype)) if kind == "float" else np.asarray(got).tolist() == want.tolist()
+                    o.check(okv, "mask_roundtrip", lambda: f"as_array(masked_value={fill}) of {col['name']!r}: {np.asarray(got).tolist()!r:.200}, want {want.tolist()!r:.200}")
+                stored = fcol.data.array
+                okd = _same_float_bits(a, stored.astype(a.dtype)) if kind == "float" else stored.tolist() == a.tolist()
+                o.check(okd, "column_array_roundtrip", lambda: f"as_array(masked_value=...) changed the stored data of {col['name']!r}: {stored.tolist()!r:.200}, was {a.tolist()!r:.200}")
+                probed += 1
+    if probed:
+        o.label("as_array_with_masked_value")
     # the written object is edited in place (rows reversed: same value set, so every encoding
     # parameter stays valid) and written again: the second file holds the new content
     edited = 0
@@ -1732,6 +1754,54 @@ SUBS = [
     ),
 ]
 
+# --------------------------------------------------------------------------
+# input forms of BinaryCIFData: list / tuple / ndarray with values around the integer widths
+# --------------------------------------------------------------------------
+_FORM_VALUES = [
+    [0, 1], [127, -128], [255, 0], [32767, -32768], [65535, 1], [2**31 - 1, -(2**31)], [2**31, 0], [2**32 - 1, 5],
+    [3_000_000_000, 1], [2**40 + 7, 2], [-(2**31) - 1, 3], [2**63 - 1, 0], [-(2**63), 0], [7],
+]
+
+
+def enum_input_forms(tier):
+    for vals in _FORM_VALUES:
+        for form in ("list", "tuple", "ndarray", "ndarray_object_free"):
+            yield {"values": vals, "form": form}
+
+
+def run_input_forms(case):
+    from biotite.structure.io.pdbx import BinaryCIFData
+
+    o = Outcome()
+    vals = case["values"]
+    form = case["form"]
+    if form == "list":
+        arg = list(vals)
+    elif form == "tuple":
+        arg = tuple(vals)
+    else:
+        arg = np.array(vals, dtype=np.int64 if min(vals) < 0 or max(vals) < 2**63 else np.uint64)
+    o.label("form=" + form, "beyond_32bit" if (max(vals) >= 2**31 or min(vals) < -(2**31)) else "within_32bit")
+    # the only accepted outcomes: an exception, or the given values exactly (never wrapped ones)
+    try:
+        data = BinaryCIFData(arg)
+        held = [int(v) for v in np.asarray(data.array).tolist()]
+    except (ValueError, TypeError, OverflowError):
+        o.label("rejected_at_construction")
+        o.mark_nontrivial()
+        return o
+    o.check_eq(held, [int(v) for v in vals], "unrepresentable_rejected_or_lossless", f"BinaryCIFData({form} {vals}).array")
+    try:
+        back = BinaryCIFData.deserialize(_msgpack_roundtrip(data.serialize()))
+    except Exception as e:  # noqa: BLE001 - any refusal is fine, a wrong value is not
+        o.label("rejected_at_serialisation:" + type(e).__name__)
+        o.mark_nontrivial()
+        return o
+    o.check_eq([int(v) for v in np.asarray(back.array).tolist()], [int(v) for v in vals], "unrepresentable_rejected_or_lossless", f"serialise/deserialise of BinaryCIFData({form} {vals})")
+    o.mark_nontrivial()
+    return o
+
+
 ENUMS = [
     Enum(
         "int_boundaries",
@@ -1740,5 +1810,13 @@ ENUMS = [
         rule="every case holds the limits of its type",
         clauses="8 integer types x 12 chain shapes (delta? rle? pack none|1|2, bytes) x 9 fixed boundary arrays, inferred and explicit parameters",
         exhaustive=True,
-    )
+    ),
+    Enum(
+        "data_input_forms",
+        enum_input_forms,
+        run_input_forms,
+        rule="integer values at every width boundary given as list, tuple or ndarray",
+        clauses="integers out of range are rejected or kept losslessly for every accepted input form of BinaryCIFData",
+        exhaustive=True,
+    ),
 ]
